@@ -1,10 +1,389 @@
-//! C17 — stub: property not yet claimed.
+//! C17 — grpc-web client layer (`tonic_web::GrpcWebClientService`), driven through its public API
+//! with a scripted inner HTTP service.
+//!
+//! Case kinds:
+//!   cl <ev>*     the inner service answers with a body made of these events; observe the frames
+//!                of the body the client layer returns and the polls of the inner body after it ended
+//!   asis <ev>*   same execution; the Lean driver compares with the model of the UNPATCHED code
+//!                (only generated with VERIF_C17_ASIS=1, to re-establish DESIGN §5.8 on the old tree)
+//!   creq <ev>*   request wrapping: what the inner service receives for a gRPC request body
+//! events as in c16. Observed frames: `d <hex>` | `t <n> (name value)*` (sorted by name, value
+//! order kept) | final `eos` / `err` / `busy`; then `ae <n>` = polls of the inner body after its end.
+use crate::c16::{all_chunkings, block_on, chunkings, frame, frames_bytes, gen_frames, gen_trailers, header_map, parse_evs, prefix_marks, render_evs, with_pendings, Ev, ScriptBody};
 use crate::common::*;
+use bytes::Bytes;
+use http::{HeaderMap, Request, Response, Version};
+use http_body::Body;
+use std::future::Future;
+use std::panic::{catch_unwind, AssertUnwindSafe};
+use std::pin::Pin;
+use std::sync::{Arc, Mutex};
+use std::task::{Context, Poll};
+use tower_service::Service;
 
-pub fn generate(_tier: &str, _rng: &mut Rng) -> Vec<String> {
-    Vec::new()
+fn render_sorted(t: &HeaderMap, out: &mut Vec<String>) {
+    let mut ps: Vec<(Vec<u8>, Vec<u8>)> = t.iter().map(|(k, v)| (k.as_str().as_bytes().to_vec(), v.as_bytes().to_vec())).collect();
+    ps.sort_by(|a, b| a.0.cmp(&b.0)); // stable: per-name value order kept
+    out.push("t".into());
+    out.push(ps.len().to_string());
+    for (k, v) in ps {
+        out.push(hex(&k));
+        out.push(hex(&v));
+    }
 }
 
-pub fn execute(_case: &str) -> String {
-    "unclaimed".into()
+/// Poll until `None` or the first error, recording every frame as it arrives (so that a
+/// busy loop, which ends in a panic of the scripted body, still shows what came before).
+async fn drain_into<B>(body: B, out: Arc<Mutex<Vec<String>>>)
+where
+    B: Body<Data = Bytes>,
+{
+    let mut body = Box::pin(body);
+    loop {
+        let fr = std::future::poll_fn(|cx| body.as_mut().poll_frame(cx)).await;
+        let mut o = out.lock().unwrap();
+        match fr {
+            None => {
+                o.push("eos".to_string());
+                break;
+            }
+            Some(Err(_)) => {
+                o.push("err".to_string());
+                break;
+            }
+            Some(Ok(frame)) => match frame.into_data() {
+                Ok(d) => {
+                    o.push("d".into());
+                    o.push(hex(&d));
+                }
+                Err(frame) => match frame.into_trailers() {
+                    Ok(t) => render_sorted(&t, &mut o),
+                    Err(_) => o.push("other".into()),
+                },
+            },
+        }
+        if o.len() > 100_000 {
+            o.push("runaway".into());
+            break;
+        }
+    }
+}
+
+/// inner HTTP service of the client: records the request, answers with the scripted body
+struct InnerHttp {
+    resp: Option<ScriptBody>,
+    seen: Arc<Mutex<Vec<String>>>,
+}
+
+impl<B> Service<Request<B>> for InnerHttp
+where
+    B: Body<Data = Bytes> + Send + 'static,
+{
+    type Response = Response<ScriptBody>;
+    type Error = std::convert::Infallible;
+    type Future = Pin<Box<dyn Future<Output = Result<Self::Response, Self::Error>> + Send>>;
+    fn poll_ready(&mut self, _: &mut Context<'_>) -> Poll<Result<(), Self::Error>> {
+        Poll::Ready(Ok(()))
+    }
+    fn call(&mut self, req: Request<B>) -> Self::Future {
+        let resp = self.resp.take().expect("one call");
+        let seen = self.seen.clone();
+        Box::pin(async move {
+            let (parts, body) = req.into_parts();
+            {
+                let mut s = seen.lock().unwrap();
+                s.push(format!("{:?}", parts.version).replace('/', "").replace('.', ""));
+                s.push(match parts.headers.get("content-type") {
+                    Some(v) => hex(v.as_bytes()),
+                    None => "none".into(),
+                });
+            }
+            drain_into(body, seen).await;
+            Ok(Response::new(resp))
+        })
+    }
+}
+
+fn run_client(resp_evs: Vec<Ev>, req_evs: Vec<Ev>) -> (Vec<String>, Vec<String>, usize, bool) {
+    let body = ScriptBody::new(resp_evs);
+    let after_end = body.after_end.clone();
+    let seen = Arc::new(Mutex::new(Vec::new()));
+    let frames = Arc::new(Mutex::new(Vec::new()));
+    let inner = InnerHttp { resp: Some(body), seen: seen.clone() };
+    let mut svc = tonic_web::GrpcWebClientService::new(inner);
+    let mut req = Request::new(ScriptBody::new(req_evs));
+    *req.version_mut() = Version::HTTP_2;
+    req.headers_mut().insert("content-type", http::HeaderValue::from_static("application/grpc"));
+    let f2 = frames.clone();
+    let r = catch_unwind(AssertUnwindSafe(move || {
+        let res = block_on(svc.call(req)).expect("response future").unwrap();
+        block_on(drain_into(res.into_body(), f2)).is_some()
+    }));
+    let panicked = r.is_err();
+    let hung = matches!(r, Ok(false));
+    let mut fr = frames.lock().unwrap().clone();
+    let ae = *after_end.lock().unwrap();
+    if panicked {
+        fr.push(if ae > 1000 { "busy".into() } else { "panic".into() });
+    } else if hung {
+        fr.push("hang".into());
+    }
+    let s = seen.lock().unwrap().clone();
+    (fr, s, ae.min(1001), panicked)
+}
+
+pub fn execute(case: &str) -> String {
+    let t: Vec<&str> = case.split(' ').filter(|s| !s.is_empty()).collect();
+    match t.as_slice() {
+        ["cl", evs @ ..] | ["asis", evs @ ..] => {
+            let Some(evs) = parse_evs(evs) else { return "bad-case".into() };
+            let (fr, _, ae, _) = run_client(evs, vec![]);
+            format!("{} ae {}", fr.join(" "), ae)
+        }
+        ["creq", evs @ ..] => {
+            let Some(evs) = parse_evs(evs) else { return "bad-case".into() };
+            let (_, seen, _, _) = run_client(vec![], evs);
+            seen.join(" ")
+        }
+        _ => "bad-case".into(),
+    }
+}
+
+// ---------------------------------------------------------------------------------------------
+
+fn trailers_frame(block: &[u8]) -> Vec<u8> {
+    frame(0x80, block)
+}
+
+fn block_of(tr: &[(Vec<u8>, Vec<u8>)], sep: &[u8]) -> Vec<u8> {
+    let mut b = Vec::new();
+    for (k, v) in tr {
+        b.extend_from_slice(k);
+        b.extend_from_slice(sep);
+        b.extend_from_slice(v);
+        b.extend_from_slice(b"\r\n");
+    }
+    b
+}
+
+fn case_of(kind: &str, evs: &[Ev]) -> String {
+    let e = render_evs(evs);
+    if e.is_empty() {
+        kind.to_string()
+    } else {
+        format!("{} {}", kind, e)
+    }
+}
+
+fn data_evs(chunks: &[Vec<u8>]) -> Vec<Ev> {
+    chunks.iter().map(|c| Ev::Data(c.clone())).collect()
+}
+
+pub fn generate(tier: &str, rng: &mut Rng) -> Vec<String> {
+    let thorough = tier == "thorough";
+    let kind = if std::env::var("VERIF_C17_ASIS").is_ok() { "asis" } else { "cl" };
+    let mut out: Vec<String> = Vec::new();
+    let st0 = b"grpc-status:0\r\n".to_vec();
+    let tf0 = trailers_frame(&st0);
+    let msg = frame(0, &[9, 9]);
+
+    // ---- corpus: the five failures of DESIGN §5.8 (witnesses of the `_fails` theorems) --------
+    // (a) message and trailers frame in one chunk
+    out.push(case_of(kind, &[Ev::Data([msg.clone(), tf0.clone()].concat())]));
+    // (b) trailers frame split across chunks (inside the header; inside the block)
+    out.push(case_of(kind, &[Ev::Data(msg.clone()), Ev::Data(tf0[..3].to_vec()), Ev::Data(tf0[3..].to_vec())]));
+    out.push(case_of(kind, &[Ev::Data(msg.clone()), Ev::Data(tf0[..9].to_vec()), Ev::Data(tf0[9..].to_vec())]));
+    out.push(case_of(kind, &[Ev::Data(tf0[..9].to_vec()), Ev::Data(tf0[9..].to_vec())]));
+    // (c) value containing ':' ; repeated name
+    out.push(case_of(kind, &[Ev::Data(trailers_frame(b"grpc-status:0\r\ngrpc-message:a:b\r\n"))]));
+    out.push(case_of(kind, &[Ev::Data(trailers_frame(b"x:1\r\nx:2\r\ngrpc-status:0\r\n"))]));
+    out.push(case_of(kind, &[Ev::Data(trailers_frame(b"grpc-message:a:b\r\n"))]));
+    out.push(case_of(kind, &[Ev::Data(trailers_frame(b"x:1\r\nx:2\r\n"))]));
+    // (d) body cut inside a frame header
+    out.push(case_of(kind, &[Ev::Data(vec![0, 0, 0])]));
+    out.push(case_of(kind, &[Ev::Data(vec![0, 0]), Ev::Data([&msg[2..], &tf0[..]].concat())]));
+    // (e) body cut inside a payload
+    out.push(case_of(kind, &[Ev::Data(vec![0, 0, 0, 0, 2, 9])]));
+    // plain good ones
+    out.push(case_of(kind, &[Ev::Data(msg.clone()), Ev::Data(tf0.clone())]));
+    out.push(case_of(kind, &[Ev::Data(tf0.clone())]));
+    out.push(case_of(kind, &[]));
+    out.push(case_of(kind, &[Ev::Data(msg.clone())]));
+    out.push(case_of(kind, &[Ev::Data(msg.clone()), Ev::Trailers(vec![(b"grpc-status".to_vec(), b"0".to_vec())])]));
+    out.push(case_of(kind, &[Ev::Data(trailers_frame(b"grpc-status: 0\r\ngrpc-message: \r\n"))]));
+    out.push(case_of(kind, &[Ev::Data(trailers_frame(b"Grpc-Status:0\r\n"))]));
+    out.push(case_of(kind, &[Ev::Data(trailers_frame(b"grpc-status:0"))])); // unterminated line
+    out.push(case_of(kind, &[Ev::Data(trailers_frame(b"nocolon\r\n"))]));
+    out.push(case_of(kind, &[Ev::Data(vec![7, 0, 0, 0, 0])])); // bad flag
+    out.push(case_of(kind, &[Ev::Data(vec![0x81, 0, 0, 0, 0])]));
+    out.push(case_of(kind, &[Ev::Data(msg.clone()), Ev::Err]));
+
+    // ---- structured -------------------------------------------------------------------------
+    let n = if thorough { 8000 } else { 700 };
+    for _ in 0..n {
+        let fs = gen_frames(rng, 3, true);
+        let mut tr = gen_trailers(rng);
+        if header_map(&tr).is_none() {
+            continue;
+        }
+        if rng.chance(1, 6) {
+            // mixed-case names as other servers send them
+            for p in tr.iter_mut() {
+                if rng.chance(1, 2) {
+                    p.0 = p.0.to_ascii_uppercase();
+                }
+            }
+        }
+        let sep: &[u8] = if rng.chance(1, 4) { b": " } else { b":" };
+        let mut bytes = frames_bytes(&fs);
+        let mlen = bytes.len();
+        let with_trailers = rng.chance(9, 10);
+        if with_trailers {
+            bytes.extend_from_slice(&trailers_frame(&block_of(&tr, sep)));
+        }
+        // marks: inside every message prefix, inside the trailers header, inside the block
+        let mut marks = prefix_marks(&fs);
+        if with_trailers {
+            for d in 0..=7 {
+                marks.push(mlen + d);
+            }
+            for _ in 0..3 {
+                marks.push(mlen + 5 + rng.below((bytes.len() - mlen - 5) as u64 + 1) as usize);
+            }
+            marks.push(bytes.len() - 1);
+            marks.push(bytes.len() - 2);
+        }
+        marks.sort();
+        marks.dedup();
+        for ck in chunkings(&bytes, &marks, rng, 3) {
+            if !thorough && rng.chance(1, 2) {
+                continue;
+            }
+            let dens = *rng.pick(&[0u64, 0, 3]);
+            let mut evs = with_pendings(&ck, rng, dens);
+            if rng.chance(1, 20) {
+                evs.push(Ev::Pending);
+            }
+            out.push(case_of(kind, &evs));
+        }
+        // truncation: cut the body at a random point / at every point for small bodies
+        let cuts: Vec<usize> = if bytes.len() <= 40 { (0..bytes.len()).collect() } else { (0..4).map(|_| rng.below(bytes.len() as u64) as usize).collect() };
+        for c in cuts {
+            if !thorough && rng.chance(2, 3) {
+                continue;
+            }
+            let ck = chunkings(&bytes[..c], &[], rng, 1).pop().unwrap();
+            out.push(case_of(kind, &with_pendings(&ck, rng, 6)));
+        }
+    }
+    // ---- small-scope exhaustive: every chunking × every truncation of small bodies ------------
+    let bodies: Vec<Vec<u8>> = vec![
+        [frame(0, &[7]), trailers_frame(b"a:1\r\n")].concat(),
+        trailers_frame(b"a:b:c\r\n"),
+        [frame(1, &[]), frame(0, &[1, 2])].concat(),
+    ];
+    for b in &bodies {
+        for cut in 0..=b.len() {
+            if !thorough && (cut > 9 && cut != b.len()) {
+                continue;
+            }
+            let pre = &b[..cut];
+            if pre.len() <= (if thorough { 13 } else { 9 }) {
+                for ck in all_chunkings(pre) {
+                    out.push(case_of(kind, &data_evs(&ck)));
+                }
+            } else {
+                for ck in chunkings(pre, &(1..pre.len()).collect::<Vec<_>>(), rng, 6) {
+                    out.push(case_of(kind, &data_evs(&ck)));
+                }
+            }
+        }
+    }
+    // ---- malformed --------------------------------------------------------------------------
+    let n = if thorough { 6000 } else { 600 };
+    for _ in 0..n {
+        let fs = gen_frames(rng, 3, false);
+        let tr = gen_trailers(rng);
+        if header_map(&tr).is_none() {
+            continue;
+        }
+        let mut block = block_of(&tr, b":");
+        match rng.below(8) {
+            0 => {
+                if !block.is_empty() {
+                    let i = rng.below(block.len() as u64) as usize;
+                    block[i] = *rng.pick(b"\r\n: \x00\x7f@A(");
+                }
+            }
+            1 => {
+                let l = block.len();
+                block.truncate(l.saturating_sub(rng.range(1, 3) as usize));
+            }
+            2 => block.extend_from_slice(b"\r\n"),
+            3 => {
+                let nb = rng.below(12) as usize;
+                block = rng.bytes(nb);
+            }
+            _ => {}
+        }
+        let mut bytes = frames_bytes(&fs);
+        bytes.extend_from_slice(&trailers_frame(&block));
+        match rng.below(8) {
+            0 => {
+                // flip a flag byte
+                let i = 0;
+                if !bytes.is_empty() {
+                    bytes[i] = *rng.pick(&[2u8, 0x81, 0x7f, 0xff, 0x40]);
+                }
+            }
+            1 => bytes.extend_from_slice(&frame(0, &[1])), // message after trailers
+            2 => bytes.extend_from_slice(&trailers_frame(b"x:late\r\n")), // two trailers frames
+            3 => {
+                let i = rng.below(bytes.len() as u64) as usize;
+                bytes[i] ^= 1 << rng.below(8);
+            }
+            4 => bytes.extend_from_slice(&rng.bytes(3)),
+            _ => {}
+        }
+        let ck = chunkings(&bytes, &[], rng, 1).pop().unwrap();
+        let mut evs = with_pendings(&ck, rng, 5);
+        match rng.below(10) {
+            0 => {
+                let at = rng.below(evs.len() as u64 + 1) as usize;
+                evs.insert(at, Ev::Err);
+            }
+            1 => evs.push(Ev::Trailers(vec![(b"grpc-status".to_vec(), b"5".to_vec()), (b"y".to_vec(), b"http".to_vec())])),
+            2 => {
+                let at = rng.below(evs.len() as u64 + 1) as usize;
+                evs.insert(at, Ev::Trailers(vec![(b"x".to_vec(), b"early".to_vec())]));
+            }
+            _ => {}
+        }
+        out.push(case_of(kind, &evs));
+    }
+    // all 256 bytes in a trailer name / value position
+    for b in 0u16..=255 {
+        let b = b as u8;
+        out.push(case_of(kind, &[Ev::Data(trailers_frame(&[b"a", &[b][..], b"z:v\r\n"].concat()))]));
+        out.push(case_of(kind, &[Ev::Data(trailers_frame(&[b"k:v", &[b][..], b"w\r\n"].concat()))]));
+        out.push(case_of(kind, &[Ev::Data(trailers_frame(&[b"k:", &[b][..], b"w\r\n"].concat()))]));
+    }
+
+    // ---- request wrapping -------------------------------------------------------------------
+    if kind == "cl" {
+        let n = if thorough { 500 } else { 60 };
+        for _ in 0..n {
+            let fs = gen_frames(rng, 3, false);
+            let bytes = frames_bytes(&fs);
+            let ck = chunkings(&bytes, &prefix_marks(&fs), rng, 1).pop().unwrap();
+            let mut evs = with_pendings(&ck, rng, 4);
+            match rng.below(6) {
+                0 => evs.push(Ev::Err),
+                1 => evs.push(Ev::Trailers(vec![(b"x".to_vec(), b"1".to_vec())])),
+                _ => {}
+            }
+            out.push(case_of("creq", &evs));
+        }
+    }
+    out
 }
